@@ -59,6 +59,30 @@ Theorem C10_sink_write_errors_reported : forall line hi k c, snd (entry_write li
 Proof. exact sink_errs. Qed.
 Print Assumptions C10_sink_write_errors_reported.
 
+(* WriteSyncer combinators between a core and its sinks (zapcore.Lock, AddSync, NewMultiWriteSyncer,
+   zap.CombineWriteSyncers, zap.Open, BufferedWriteSyncer, nested in any way): Write through the stack
+   returns exactly the errors the property's reading lists over the flattened sinks ... *)
+Theorem C10_writesyncer_errors : forall k w, ws_errs k w = flat_map (sk_errs k) (ws_sinks None true w).
+Proof. exact (fun k w => ws_errs_spec k w true). Qed.
+Print Assumptions C10_writesyncer_errors.
+(* ... a failure is contained in its round: a sink that is not behind a BufferedWriteSyncer is written
+   for EVERY entry of every sequence - whatever failed in earlier rounds, on this sink or any other -
+   and its report is this round's outcome only *)
+Theorem C10_sink_unbuffered_always_written : forall line hi k c l s, In l (leaves c) -> In s (l_sinks l) -> s_guard s = None ->
+  In (EvW (s_id s) (line (l_con l))) (fst (entry_write line hi k c)).
+Proof. exact sink_unbuffered_written. Qed.
+Print Assumptions C10_sink_unbuffered_always_written.
+Theorem C10_sink_unbuffered_report : forall k s, s_guard s = None -> sk_errs k s = raw_err (s_outs s) k.
+Proof. exact unbuffered_errs. Qed.
+Print Assumptions C10_sink_unbuffered_report.
+(* ... and a sink behind a BufferedWriteSyncer is written as long as no write behind that buffer has failed
+   (bufio.Writer keeps its first error: afterwards that error is reported again for every entry) *)
+Theorem C10_sink_buffered_written_until_failure : forall line hi k c l s g, In l (leaves c) -> In s (l_sinks l) -> s_guard s = Some g ->
+  (forall j, (j < k)%nat -> fails_at g j = false) ->
+  In (EvW (s_id s) (line (l_con l))) (fst (entry_write line hi k c)).
+Proof. exact sink_buffered_written. Qed.
+Print Assumptions C10_sink_buffered_written_until_failure.
+
 (* what the sinks receive is the entry, intact: the line of a JSON core decodes to exactly the reference
    members of the entry, the line of a console core is exactly the documented shape - there is no
    hypothesis about the outcomes of the other sinks or of earlier entries *)
@@ -102,6 +126,14 @@ Print Assumptions C10_wire.
 
 Example C10_example_sink :
   entry_write (fun con => if con then [x43] else [x4a]) true 0
-    (STee [SLeaf 0 false [{| werr := Some [x45]; serr := None |}]; SWrap (STee [SLeaf 1 true []; SLeaf 2 false [{| werr := Some [x46]; serr := None |}]])])
+    (STee [SLeaf false (WSink 0 [{| werr := Some [x45]; serr := None |}]); SWrap (STee [SLeaf true (WSink 1 []); SLeaf false (WSink 2 [{| werr := Some [x46]; serr := None |}])])])
   = ([EvW 0 [x4a]; EvW 1 [x43]; EvS 1; EvW 2 [x4a]], [[x45]; [x46]]).
+Proof. vm_compute. reflexivity. Qed.
+(* round 1 of: a core over Lock(sink 0), whose write failed in round 0; a core over CombineWriteSyncers(sink 1
+   behind AddSync-of-a-Writer, sink 2); a core over a BufferedWriteSyncer whose sink 3 failed in round 0 *)
+Example C10_example_combinators :
+  let bad := [{| werr := Some [x45]; serr := None |}] in
+  entry_write (fun _ => [x4a]) true 1
+    (STee [SLeaf false (WPass (WSink 0 bad)); SLeaf false (WPass (WMulti [WNoSync (WSink 1 []); WSink 2 []])); SLeaf false (WBuf (WSink 3 bad))])
+  = ([EvW 0 [x4a]; EvS 0; EvW 1 [x4a]; EvW 2 [x4a]; EvS 2], [[x45]]).
 Proof. vm_compute. reflexivity. Qed.
